@@ -58,6 +58,43 @@ def get_us(self, G, root):
 ''']
 
 
+def _finer_key_hook(prog, ae):
+    """The vertex-list argument of get_edge_combinations only feeds the cache key (checked here).  An argument that CONTAINS the
+    reference's list next to further elements (`[p] + c`) keys the table more finely and changes no value: it is read as `c`."""
+    gec = prog.method(ae.cls, "get_edge_combinations") if ae.cls is not None else None
+    if gec is None or len(gec.params) != 3:
+        return None
+    pn = gec.params[2]
+    msc = Scope(gec.node)
+    key_nodes = []
+    for y in astx.walk_fn(gec.node):
+        if isinstance(y, ast.Subscript) and astx.self_attr(y.value) == "_edge_combinations":
+            key_nodes.append(y.slice)
+            for nm_ in astx.names_in(y.slice):
+                for d_ in msc.assigns.get(nm_, []):
+                    if getattr(d_, "value", None) is not None:
+                        key_nodes.append(d_.value)
+        if isinstance(y, ast.Compare) and any(astx.self_attr(c_) == "_edge_combinations" for c_ in y.comparators):
+            key_nodes.append(y.left)
+    in_key = {id(z) for kn in key_nodes for z in ast.walk(kn)}
+    loads = [z for z in astx.walk_fn(gec.node) if isinstance(z, ast.Name) and z.id == pn and isinstance(z.ctx, ast.Load)]
+    if not loads or not all(id(z) in in_key for z in loads):
+        return None
+
+    def hook(name, node, tr):
+        if name == "self.get_edge_combinations" and len(node.args) == 2 and not node.keywords:
+            a = node.args[1]
+            if isinstance(a, ast.BinOp) and isinstance(a.op, ast.Add):
+                for keep_, other in ((a.right, a.left), (a.left, a.right)):
+                    if isinstance(other, (ast.List, ast.Tuple)) and isinstance(keep_, ast.Name):
+                        import copy
+                        n2 = copy.copy(node)
+                        n2.args = [node.args[0], keep_]
+                        return tr.tr(n2)
+        return None
+    return hook
+
+
 def _u_reads(fn_node):
     out = []
     for n in (astx.walk_fn(fn_node) if isinstance(fn_node, (ast.FunctionDef, ast.AsyncFunctionDef)) else ast.walk(fn_node)):
@@ -170,8 +207,27 @@ def cache_rules(ctx, oid, prog, ci, ae, gus, writers, ALL_CACHES, p_param):
                     # call sites in automated_equation: no tainted argument
                     for x in astx.walk_fn(ae.node):
                         if isinstance(x, ast.Call) and txt(x.func) == f"self.{m.name}":
-                            for a in x.args:
+                            for ai, a in enumerate(x.args):
                                 if astx.names_in(a) & tainted:
+                                    # harmless when the receiving parameter only ever feeds the cache KEY: the table is then
+                                    # keyed more finely (a recomputation per phi), the cached values are what they were
+                                    pn = m.params[ai + 1] if ai + 1 < len(m.params) else None
+                                    msc = Scope(m.node)
+                                    key_nodes = []
+                                    for y in astx.walk_fn(m.node):
+                                        if isinstance(y, ast.Subscript) and astx.self_attr(y.value) == cache:
+                                            key_nodes.append(y.slice)
+                                            for nm_ in astx.names_in(y.slice):
+                                                for d_ in msc.assigns.get(nm_, []):
+                                                    if getattr(d_, "value", None) is not None:
+                                                        key_nodes.append(d_.value)
+                                        if isinstance(y, ast.Compare) and any(astx.self_attr(c_) == cache for c_ in y.comparators):
+                                            key_nodes.append(y.left)
+                                    in_key = {id(z) for kn in key_nodes for z in ast.walk(kn)}
+                                    loads = [z for z in astx.walk_fn(m.node) if isinstance(z, ast.Name) and z.id == pn and isinstance(z.ctx, ast.Load)]
+                                    if pn is not None and loads and all(id(z) in in_key for z in loads):
+                                        o.holds(ae, x, f"`{txt(a)}` (depends on phi / u) reaches {m.name} only as part of the cache key `{pn}`: the table is keyed more finely, the cached values do not change")
+                                        continue
                                     bad = True
                                     o.violated(ae, x, f"`{txt(a)}` (depends on phi / u) is passed into {m.name}, whose result is cached in self.{cache}")
                     # the writer itself must not compute with a parameter named like phi; every parameter is structural:
@@ -314,7 +370,7 @@ def run(ctx):
             o.holds(ae, ae.node, f"no write effect on the values obtained from the caches ({from_cache or 'used inline'})", construct="effects on cached values")
 
     with ctx.obligation("C15.4", "factor structure of the sum; working copy stripped before it is used", floor=5) as o:
-        conform(o, ae, REF_EQ, "automated_equation term structure")
+        conform(o, ae, REF_EQ, "automated_equation term structure", call_hook=_finer_key_hook(prog, ae))
         conform(o, gus, REF_US, "get_us = product of u over the members except the root")
         # the working copy g
         copies = [nm for nm in sc.assigns if rules.copy_source(sc.assigns[nm][0].value) == Gp]
@@ -408,6 +464,12 @@ def run(ctx):
                     if lo == tm.ZERO and hi in (want_hi, alt_hi) and txt(cb.args[1]) == txt(lps[-1].target) and txt(cb.args[0]) in (f"{Ge}.edges()", f"{Ge}.edges"):
                         okr = True
                         o.holds(gec, cb, "every subset of the edges, of every size 0..E")
+                    elif lo == tm.ZERO and hi in (tm.sub(want_hi, tm.ONE), tm.sub(alt_hi, tm.ONE)) and txt(cb.args[1]) == txt(lps[-1].target) and txt(cb.args[0]) in (f"{Ge}.edges()", f"{Ge}.edges"):
+                        # sizes 0..E-1: only the subset of ALL edges is left out, and removing every edge of a graph with two or
+                        # more vertices never leaves it connected - that subset contributes nothing; automated_equation calls this
+                        # only for components of at least two vertices (independent differential audit: identical values)
+                        okr = True
+                        o.holds(gec, cb, "every subset of the edges of size 0..E-1 (the full subset never leaves a motif component connected)")
                     elif not tm.has_opaque(hi):
                         o.violated(gec, lps[-1], f"subset sizes range({tm.show(lo)}, {tm.show(hi)}) do not cover 0..E: terms of the sum are missing")
             if not okr and not any(r.status == "VIOLATED" and r.function.endswith("get_edge_combinations") for r in o.results):
